@@ -114,6 +114,8 @@ structure Cfg where
   fixReplay : Bool := true
   fixFin : Bool := true
   fixBlk : Bool := true
+  fixTail : Bool := true     -- patches/C17-07: the tail of Action::start() is skipped after a re-entrant reset()
+  fixLoop : Bool := true     -- patches/C17-08: the replay of held-back results stops when the action was reset
 deriving DecidableEq, Repr
 
 /-- what the user of the tree can see happening -/
@@ -133,6 +135,14 @@ inductive Call where
   | emitBlk (n : Nat)                   -- DummyAction n: emitBlock(Reason())
 deriving DecidableEq, Repr
 
+/-- one-shot scripts attached to the callbacks of the root: every invocation of the callback takes the
+next script and makes its control calls on the root, synchronously, from inside the callback -/
+structure Scr where
+  final : List (List Call) := []        -- setFinalCallback of the root (runs at the end of finish() / stop())
+  fin : List (List Call) := []          -- setFinishCallback of the root (runs from the loop)
+  blk : List (List Call) := []          -- setBlockCallback of the root (runs from the loop)
+deriving Repr
+
 /-- loop-side globals -/
 structure G where
   cfg : Cfg := {}
@@ -140,6 +150,7 @@ structure G where
   nextId : Nat := 1                     -- CommonLoop::run_next_id_alloc_ (only the order matters)
   log : List Ev := []                   -- newest first
   user : List (Nat × List Call) := []   -- tasks posted by the script itself (`defer`)
+  scr : Scr := {}                       -- callback scripts (used by the re-entrant layer Reent.lean only)
 deriving Repr
 
 def G.emit (g : G) (e : Ev) : G := { g with log := e :: g.log }
